@@ -13,7 +13,6 @@ import (
 	"verif/checks/c02"
 	"verif/checks/common"
 	"verif/engine"
-	"verif/engine/dump"
 )
 
 type pairCase struct {
@@ -90,7 +89,7 @@ func run[V any](r *engine.Rec, c *cfg[V]) {
 						B = A
 					}
 					ca, cb := classes(A.AsArray()), classes(B.AsArray())
-					da, db := dump.Dump(A), dump.Dump(B)
+					da, db := common.View(A), common.View(B)
 					var res col.SetLike[V]
 					out := rt.Protect(4000000, func() {
 						switch op {
@@ -110,12 +109,12 @@ func run[V any](r *engine.Rec, c *cfg[V]) {
 						r.Violation(op+" fails", out.Value, pc)
 						continue
 					}
-					if dump.Dump(A) != da || dump.Dump(B) != db {
+					if common.View(A) != da || common.View(B) != db {
 						r.Violation(op+" changes an operand", fmt.Sprintf("%+v", pc), pc)
 						continue
 					}
 					// a result handed out earlier must keep its contents when the function is called again
-					if pr, ok := prevRes[op]; ok && dump.Dump(pr) != prevDump[op] {
+					if pr, ok := prevRes[op]; ok && common.View(pr) != prevDump[op] {
 						r.Violation("a later call of "+op+" changes the set returned by an earlier call", fmt.Sprintf("earlier %+v, now %+v: earlier result is now %v", prevCase[op], pc, pr.AsArray()), pc)
 					}
 					delete(prevRes, op)
@@ -180,7 +179,7 @@ func run[V any](r *engine.Rec, c *cfg[V]) {
 							}
 						})
 						if again != nil {
-							prevRes[op], prevDump[op], prevCase[op] = again, dump.Dump(again), pc
+							prevRes[op], prevDump[op], prevCase[op] = again, common.View(again), pc
 						}
 					}
 					// later changes to the result do not affect the operands and vice versa
@@ -193,11 +192,11 @@ func run[V any](r *engine.Rec, c *cfg[V]) {
 							}
 						})
 					}
-					if dump.Dump(A) != da || dump.Dump(B) != db {
+					if common.View(A) != da || common.View(B) != db {
 						r.Violation("changing the result of "+op+" changes an operand", fmt.Sprintf("%+v", pc), pc)
 						continue
 					}
-					dr := dump.Dump(res)
+					dr := common.View(res)
 					for i, v := range c.universe {
 						rt.Protect(1000000, func() {
 							if i%2 == 0 {
@@ -209,7 +208,7 @@ func run[V any](r *engine.Rec, c *cfg[V]) {
 							}
 						})
 					}
-					if dump.Dump(res) != dr {
+					if common.View(res) != dr {
 						r.Violation("changing an operand changes the result of "+op, fmt.Sprintf("%+v", pc), pc)
 					}
 					r.Outcome(op)
